@@ -6,8 +6,11 @@ import (
 	"context"
 	crand "crypto/rand"
 	"fmt"
+	"runtime"
+	"strings"
 	"sync"
 	"testing"
+	"time"
 
 	"github.com/libp2p/go-libp2p/core/crypto"
 
@@ -42,7 +45,9 @@ func TestVerifC11(t *testing.T) {
 	defer rep.Finish(t)
 	rep.Rule = "random account pairs: contact group derived on both sides (identifier, secret, signing key, type), cached vs recomputed vs sibling device vs restart, in random order of first use; " +
 		"collision census over all derived identifiers/secrets; random multi-member groups: member key across devices/restarts, device keys per store; export/import reproduction; " +
-		"import refusals (used store, RSA/Secp256k1/ECDSA keys, truncated/garbage blobs, equal keys). distinct = account pairs / groups / refusal cases"
+		"import refusals (used store after each kind of first use - a refused import must neither change an existing key nor install an imported one -, RSA/Secp256k1/ECDSA keys, truncated/garbage blobs, equal keys); " +
+		"concurrent first use of a fresh store (6 callers, seeded delays around every datastore access): every caller must be handed the identity the store keeps. distinct = account pairs / groups / refusal cases / first-use rounds"
+	rep.Assume("concurrent first use is not mentioned by the statement; it is included because a store that hands two callers different identities cannot satisfy 'derive the same keys' for both afterwards")
 	rep.Assume("swapped key blobs are not covered by the statement: either outcome accepted, an accepted import must be self-consistent")
 	ctx := context.Background()
 	rng := verifkit.Rand("c11")
@@ -244,7 +249,11 @@ func TestVerifC11(t *testing.T) {
 	for name, use := range firstUses {
 		st := newVStore("U", 2, 2)
 		use(st)
-		before := identityOf(st)
+		// the identity before the import is read on two independent copies of the state (reading it creates whichever
+		// key does not exist yet): a component that is equal on both copies existed, the other ones did not
+		b1 := strings.Split(identityOf(newVStoreOn("b1", st.ds.Clone(), 2, 2)), "/")
+		b2 := strings.Split(identityOf(newVStoreOn("b2", st.ds.Clone(), 2, 2)), "/")
+		writesBefore := st.ds.LogLen()
 		err := st.ss.ImportAccountKeys(goodA, goodB)
 		rep.Case("used-store/" + name)
 		if err == nil {
@@ -252,8 +261,117 @@ func TestVerifC11(t *testing.T) {
 			continue
 		}
 		rep.Count("imports_refused", 1)
-		if after := identityOf(st); after != before {
-			rep.Violate("C11/refused-import-changed-identity", "a refused import changed the store's account keys", name)
+		if st.ds.LogLen() != writesBefore {
+			rep.Count("refused_imports_that_wrote", 1)
+		}
+		after := strings.Split(identityOf(st), "/")
+		imported := []string{fmt.Sprintf("%x", goodA), fmt.Sprintf("%x", goodB)}
+		if len(b1) != 2 || len(b2) != 2 || len(after) != 2 {
+			rep.Inconclusivef("identity of a used store cannot be read (%s)", name)
+			continue
+		}
+		for i, what := range []string{"account key", "account proof key"} {
+			if b1[i] == b2[i] && after[i] != b1[i] {
+				rep.Violate("C11/refused-import-changed-identity", "a refused import changed the store's "+what, name)
+			} else if after[i] == imported[i] {
+				rep.Violate("C11/refused-import-changed-identity", "a refused import installed the imported "+what+" in a store that did not have one yet", name)
+			}
+		}
+	}
+	// concurrent first use: several callers ask a fresh store for its identities at the same moment (seeded delays around
+	// every datastore access widen the window between "key missing" and "key stored"); every caller must be handed the
+	// identity the store keeps, otherwise one of them derives contact groups / member keys nobody else can derive
+	for round := 0; round < verifkit.Pick(30, 300); round++ {
+		rng := verifkit.Rand(fmt.Sprintf("c11-first-use-%d", round))
+		st := newVStore("CF", 2, 2)
+		var pmu sync.Mutex
+		st.ds.Perturb = func(op, key string) {
+			pmu.Lock()
+			d := time.Duration(rng.Intn(300)) * time.Microsecond
+			pmu.Unlock()
+			if d > 150*time.Microsecond {
+				time.Sleep(d)
+			} else {
+				runtime.Gosched()
+			}
+		}
+		peer := newVStore("P", 2, 2)
+		g, _, _ := protocoltypes.NewGroupMultiMember()
+		kind := round % 4
+		const n = 6
+		out := make([]string, n)
+		var wg sync.WaitGroup
+		start := make(chan struct{})
+		for i := 0; i < n; i++ {
+			wg.Add(1)
+			go func(i int) {
+				defer wg.Done()
+				<-start
+				switch kind {
+				case 0:
+					if ag, _, err := st.ss.GetGroupForAccount(); err == nil {
+						out[i] = fmt.Sprintf("%x", ag.PublicKey)
+					}
+				case 1:
+					if pk, err := st.ss.GetAccountProofPublicKey(); err == nil {
+						b, _ := pk.Raw()
+						out[i] = fmt.Sprintf("%x", b)
+					}
+				case 2:
+					if md, err := st.ss.GetOwnMemberDeviceForGroup(g); err == nil {
+						m, _ := md.Member().Raw()
+						d, _ := md.Device().Raw()
+						out[i] = fmt.Sprintf("%x/%x", m, d)
+					}
+				case 3:
+					if cg, err := st.ss.GetGroupForContact(peer.accountPK()); err == nil {
+						out[i] = fmt.Sprintf("%x/%x", cg.PublicKey, cg.Secret)
+					}
+				}
+			}(i)
+		}
+		close(start)
+		wg.Wait()
+		st.ds.Perturb = nil
+		// what the store keeps (read sequentially afterwards, and after a restart)
+		kept := ""
+		re := st.clone()
+		switch kind {
+		case 0:
+			ag, _, _ := re.ss.GetGroupForAccount()
+			kept = fmt.Sprintf("%x", ag.GetPublicKey())
+		case 1:
+			pk, _ := re.ss.GetAccountProofPublicKey()
+			b, _ := pk.Raw()
+			kept = fmt.Sprintf("%x", b)
+		case 2:
+			md, _ := re.ss.GetOwnMemberDeviceForGroup(g)
+			m, _ := md.Member().Raw()
+			d, _ := md.Device().Raw()
+			kept = fmt.Sprintf("%x/%x", m, d)
+		case 3:
+			// the peer derives the group from the public key the store exports now
+			cg, _ := peer.ss.GetGroupForContact(re.accountPK())
+			kept = fmt.Sprintf("%x/%x", cg.GetPublicKey(), cg.GetSecret())
+		}
+		names := []string{"account key", "account proof key", "member/device key of a group", "contact group"}
+		rep.Case(fmt.Sprintf("concurrent-first-use/%d/%s", round, names[kind]))
+		bad := false
+		for i := 0; i < n; i++ {
+			if out[i] == "" {
+				rep.Violate("C11/concurrent-first-use/error", "a first use of the "+names[kind]+" failed under concurrency", round)
+				bad = true
+				break
+			}
+			if out[i] != kept {
+				rep.Violate("C11/concurrent-first-use/"+names[kind], "two concurrent first callers were handed different identities: one caller's "+names[kind]+" is not the one the store (and hence every other device and peer) uses",
+					map[string]interface{}{"round": round, "caller": i})
+				bad = true
+				break
+			}
+		}
+		if !bad {
+			rep.Count("concurrent_first_uses_consistent", 1)
 		}
 	}
 	// swapped blobs: outside the statement; self-consistency only
